@@ -23,6 +23,13 @@ from typing import Any, Callable, Iterable, Optional
 VERIF = Path(__file__).resolve().parent.parent
 REPO = Path(os.environ.get("VERIF_REPO", "/repo"))
 SRC = REPO / "src"
+# the library makes <package>/util/logs on its first import with a check-then-mkdir; the checks start many fresh interpreters in
+# parallel, and on a freshly restored tree (the directory is git-ignored) two first imports could race and one fail.  The parent
+# process makes the directory once, before any worker exists.
+try:
+    (SRC / "richchk" / "util" / "logs").mkdir(exist_ok=True)
+except OSError:
+    pass
 PKG = SRC / "richchk"
 COQ = VERIF / "coq"
 BUILD = VERIF / "build"
